@@ -27,8 +27,8 @@ def sampleRun (v : Variant) (ex : Executor) : Run :=
 
 /-- **Exit status ⇔ a reported finding that is not exit-code-suppressed** (outside `--safety`).
     Hypotheses: the exit code is visible in an 8-bit status, no worker pipe was lost, no 2^32 wrap-around, equal
-    rendered text ⇒ equal suppression answers, and the run avoids the two input classes on which the shipped code
-    deviates (both hypotheses are vacuous for the patched variant, see `exit_iff_patched`). -/
+    rendered text ⇒ equal suppression answers, and — for the legacy variant only — the run avoids the two input
+    classes on which the statements repaired by a59832c / 4c58edf deviated (vacuous for `patched`, see `exit_iff_patched`). -/
 theorem exit_iff_partial (r : Run)
     (hsafe : r.o.safety = false)
     (hcode : r.o.errorExitCode % 256 ≠ 0)
@@ -41,14 +41,14 @@ theorem exit_iff_partial (r : Run)
     exitStatus r = waitStatus r.o.errorExitCode ↔ ∃ f ∈ printed r, f.nofail = false :=
   ⟨sound r hsafe hcode hlost hkey hplain hF9, fun ⟨f, hf, hn⟩ => complete r hsafe hwrap hcc f hf hn⟩
 
-example : (sampleRun shipped .thread).o.safety = false ∧ (sampleRun shipped .thread).o.errorExitCode % 256 ≠ 0 ∧
-    (sampleRun shipped .thread).lostPipes = 0 ∧ noWrap (sampleRun shipped .thread) = true ∧
-    keyCoherent (sampleRun shipped .thread) = true ∧ unmatchedPlain (sampleRun shipped .thread) = true ∧
-    avoidsUnmatchedNofail (sampleRun shipped .thread) = true ∧ avoidsCheckConfig (sampleRun shipped .thread) = true ∧
-    exitStatus (sampleRun shipped .thread) = 7 ∧ (printed (sampleRun shipped .thread)).map (·.key) = [2, 3, 4, 5] := by
+example : (sampleRun legacy .thread).o.safety = false ∧ (sampleRun legacy .thread).o.errorExitCode % 256 ≠ 0 ∧
+    (sampleRun legacy .thread).lostPipes = 0 ∧ noWrap (sampleRun legacy .thread) = true ∧
+    keyCoherent (sampleRun legacy .thread) = true ∧ unmatchedPlain (sampleRun legacy .thread) = true ∧
+    avoidsUnmatchedNofail (sampleRun legacy .thread) = true ∧ avoidsCheckConfig (sampleRun legacy .thread) = true ∧
+    exitStatus (sampleRun legacy .thread) = 7 ∧ (printed (sampleRun legacy .thread)).map (·.key) = [2, 3, 4, 5] := by
   decide
 
-/-- with both proposed patches applied the statement needs no exclusion of input classes -/
+/-- **the theorem about the tree as it is** (both repairs in): no input class is excluded -/
 theorem exit_iff_patched (r : Run) (hv : r.v = patched)
     (hsafe : r.o.safety = false) (hcode : r.o.errorExitCode % 256 ≠ 0) (hlost : r.lostPipes = 0)
     (hwrap : noWrap r = true) (hkey : keyCoherent r = true) (hplain : unmatchedPlain r = true) :
@@ -81,8 +81,8 @@ theorem exit_zero_when_errorExitCode_zero (r : Run) (hsafe : r.o.safety = false)
   · rw [h]; unfold waitStatus; omega
   · exact h
 
-example : exitStatus { sampleRun shipped .single with o := sampleOpts 0 .single } = 0 ∧
-    exitStatus { sampleRun shipped .single with o := sampleOpts 256 .single } = 0 := by decide
+example : exitStatus { sampleRun legacy .single with o := sampleOpts 0 .single } = 0 ∧
+    exitStatus { sampleRun legacy .single with o := sampleOpts 256 .single } = 0 := by decide
 
 /-- an invalid command line exits with 1, `--help`/`--version` with 0, before anything is analysed -/
 theorem invalid_cmdline_is_1 (r : Run) : processStatus .fail r = 1 ∧ processStatus .exit r = 0 ∧
@@ -93,7 +93,7 @@ theorem safety_critical_is_1 (r : Run) (hsafe : r.o.safety = true) (hcrit : hasC
   unfold exitStatus mainReturn
   simp [hsafe, hcrit, waitStatus]
 
-example : exitStatus { sampleRun shipped .single with
+example : exitStatus { sampleRun legacy .single with
     o := { sampleOpts 7 .single with safety := true },
     files := [[{ sampleFinding 1 true true with critical := true }]], wp2 := [], unmatched := [] } = 1 := by decide
 
@@ -112,7 +112,8 @@ theorem lost_pipe_fails (r : Run) (hsafe : r.o.safety = false) (hproc : r.o.exec
   rw [Nat.mod_eq_of_lt (by omega)]
   omega
 
-/- ---- the full-strength statement is false of the shipped code: three witnesses ---------------------------- -/
+/- ---- the full-strength statement was false of the legacy statements (kept as regression witnesses), and stays false
+        without `keyCoherent` ------------------------------------------------------------------------------------ -/
 
 /-- F9 witness: `--enable=information --suppress=uninitvar:e.c --exitcode-suppressions=<unmatchedSuppression>
     --error-exitcode=7 e.c` on a file without findings: one unmatchedSuppression is printed, it is matched by the
@@ -122,17 +123,17 @@ def witnessF9 (v : Variant) : Run :=
     unmatchedGate := true, unmatched := [sampleFinding 1 false true], lostPipes := 0 }
 
 theorem unmatched_ignores_nofail_counterexample :
-    ¬ (∀ r : Run, r.v = shipped → r.o.safety = false → r.o.errorExitCode % 256 ≠ 0 → r.lostPipes = 0 →
+    ¬ (∀ r : Run, r.v = legacy → r.o.safety = false → r.o.errorExitCode % 256 ≠ 0 → r.lostPipes = 0 →
         noWrap r = true → keyCoherent r = true → unmatchedPlain r = true → avoidsCheckConfig r = true →
         (exitStatus r = waitStatus r.o.errorExitCode ↔ ∃ f ∈ printed r, f.nofail = false)) := by
   intro h
-  have := h (witnessF9 shipped) rfl rfl (by decide) rfl (by decide) (by decide) (by decide) (by decide)
+  have := h (witnessF9 legacy) rfl rfl (by decide) rfl (by decide) (by decide) (by decide) (by decide)
   revert this
   decide
 
 /-- the patch removes the deviation on the same input -/
-example : exitStatus (witnessF9 shipped) = 7 ∧ exitStatus (witnessF9 patched) = 0 ∧
-    (printed (witnessF9 shipped)).map (·.nofail) = [true] := by decide
+example : exitStatus (witnessF9 legacy) = 7 ∧ exitStatus (witnessF9 patched) = 0 ∧
+    (printed (witnessF9 legacy)).map (·.nofail) = [true] := by decide
 
 /-- `--check-config --enable=missingInclude --error-exitcode=7 m.c ok.c` (m.c has a missing include): the finding is
     printed and is not exit-code-suppressed, the status is 0; with the files in the other order the status is 7; with
@@ -143,18 +144,18 @@ def witnessCC (v : Variant) (ex : Executor) (mFirst : Bool) : Run :=
     wp1 := [], wp1Errors := false, wp2 := [], unmatchedGate := false, unmatched := [], lostPipes := 0 }
 
 theorem check_config_counterexample :
-    ¬ (∀ r : Run, r.v = shipped → r.o.safety = false → r.o.errorExitCode % 256 ≠ 0 → r.lostPipes = 0 →
+    ¬ (∀ r : Run, r.v = legacy → r.o.safety = false → r.o.errorExitCode % 256 ≠ 0 → r.lostPipes = 0 →
         noWrap r = true → keyCoherent r = true → unmatchedPlain r = true → avoidsUnmatchedNofail r = true →
         (exitStatus r = waitStatus r.o.errorExitCode ↔ ∃ f ∈ printed r, f.nofail = false)) := by
   intro h
-  have := h (witnessCC shipped .single true) rfl rfl (by decide) rfl (by decide) (by decide) (by decide) (by decide)
+  have := h (witnessCC legacy .single true) rfl rfl (by decide) rfl (by decide) (by decide) (by decide) (by decide)
   revert this
   decide
 
-/-- the status of a `--check-config` run depends on the order of the files and on the executor (shipped code only) -/
+/-- the status of a `--check-config` run depends on the order of the files and on the executor (legacy statement only) -/
 theorem check_config_order_dependent :
-    exitStatus (witnessCC shipped .single true) = 0 ∧ exitStatus (witnessCC shipped .single false) = 7 ∧
-    exitStatus (witnessCC shipped .thread false) = 0 ∧ exitStatus (witnessCC shipped .process false) = 0 ∧
+    exitStatus (witnessCC legacy .single true) = 0 ∧ exitStatus (witnessCC legacy .single false) = 7 ∧
+    exitStatus (witnessCC legacy .thread false) = 0 ∧ exitStatus (witnessCC legacy .process false) = 0 ∧
     (∀ ex b, exitStatus (witnessCC patched ex b) = 7) := by
   refine ⟨by decide, by decide, by decide, by decide, ?_⟩
   intro ex b
